@@ -442,4 +442,88 @@ theorem generated_processAcquirePriv_eq (matchP : Level → Bytes → Bool) (o :
         simp only [hb, hb2, h1, h2, if_false, Bool.false_eq_true, hidx0, hat0, Bool.not_true]
         exact tail p0
 
+/-- `util.StringSliceContains` (the candidate tests of `processAcquirePriv`) as translated from the
+current source is list membership — what the translator renders its call sites as -/
+theorem generated_stringSliceContains_eq (ss : List Bytes) (s : Bytes) :
+    Gen.Bodies.Priv.stringSliceContains ss s = ss.contains s := by
+  unfold Gen.Bodies.Priv.stringSliceContains Go.forRange
+  rw [Go.forRangeFrom_find (fun x => x == s) (fun _ => true)]
+  induction ss with
+  | nil => simp
+  | cons a l ih =>
+    simp only [List.find?, List.contains_cons]
+    by_cases h : a = s
+    · simp [h]
+    · have h1 : (a == s) = false := by simpa using h
+      have h2 : (s == a) = false := by simpa using (Ne.symm h)
+      simp [h1, h2, ih]
+
+/-- `util.StringContainsAny` (the not-contains test of `determineCurrentPriv`) as translated from the
+current source: some element of the list is a substring of the text -/
+theorem generated_stringContainsAny_eq (s : Bytes) (l : List Bytes) :
+    Gen.Bodies.Priv.stringContainsAny s l = l.any (fun ss => isInfix ss s) := by
+  unfold Gen.Bodies.Priv.stringContainsAny Go.forRange
+  rw [Go.forRangeFrom_find (fun ss => isInfix ss s) (fun _ => true)]
+  induction l with
+  | nil => simp
+  | cons a l ih =>
+    simp only [List.find?, List.any]
+    cases h : isInfix a s <;> simp [ih]
+
+/-- the `range` loop of `determineCurrentPriv` over the levels in whatever order the map iteration
+yields them, as translated from the current source -/
+theorem determine_loop (notContains : Level → List Bytes) (patMatch : Level → Bytes → Bool) (prompt : Bytes)
+    (lvs : List Level) (acc : List Bytes) (i : Int) :
+    Go.forRangeFrom (ρ := List Bytes × Go.Error) (fun _ priv possiblePrivs => (
+      if (Gen.Bodies.Priv.stringContainsAny prompt (notContains priv)) then (
+        .next possiblePrivs)
+      else (
+        let possiblePrivs := if (patMatch priv prompt) then (
+            let possiblePrivs := (possiblePrivs ++ [priv.name])
+            possiblePrivs)
+          else (
+            possiblePrivs)
+        .next possiblePrivs))) i lvs acc
+    = .fin (acc ++ (lvs.filter fun l => matchOf notContains patMatch l prompt).map (·.name)) := by
+  generalize hbody : (fun (_ : Int) (priv : Level) (possiblePrivs : List Bytes) => _) = body
+  have hstep : ∀ (i : Int) (l : Level) (acc : List Bytes), body i l acc
+      = .next (if matchOf notContains patMatch l prompt then acc ++ [l.name] else acc) := by
+    intro i l acc
+    subst hbody
+    simp only [generated_stringContainsAny_eq, matchOf]
+    by_cases h1 : ((notContains l).any (fun s => isInfix s prompt)) = true <;>
+      by_cases h2 : patMatch l prompt = true <;> simp [h1, h2]
+  clear hbody
+  induction lvs generalizing acc i with
+  | nil => simp [Go.forRangeFrom]
+  | cons l lvs ih =>
+    simp only [Go.forRangeFrom, hstep, List.filter]
+    cases h : matchOf notContains patMatch l prompt <;> simp [ih]
+
+/-- the body of `(*Driver).determineCurrentPriv` as the translator renders it from the current source,
+over ANY iteration order `o.lv L` of the level map: it returns the names `determineCurrent` returns
+(matcher = no not-contains string occurs in the prompt, and the pattern matches) and fails with
+`ErrPrivilegeError` exactly when there is none -/
+theorem generated_determineCurrentPriv_eq (notContains : Level → List Bytes) (patMatch : Level → Bytes → Bool)
+    (o : Orders) (L : Levels) (prompt : Bytes) :
+    Gen.Bodies.Priv.determineCurrentPriv (o.lv L) notContains patMatch prompt
+      = if determineCurrent (matchOf notContains patMatch) o L prompt = [] then ([], some "ErrPrivilegeError")
+        else (determineCurrent (matchOf notContains patMatch) o L prompt, none) := by
+  unfold Gen.Bodies.Priv.determineCurrentPriv Go.forRange determineCurrent
+  dsimp only
+  rw [determine_loop]
+  simp only [List.nil_append]
+  generalize ((o.lv L).filter fun l => matchOf notContains patMatch l prompt).map (·.name) = r
+  cases r <;> simp [Go.len]
+  omega
+
+/-- … which is the contract `generated_processAcquirePriv_eq` assumes of it -/
+theorem generated_determineCurrentPriv_contract (notContains : Level → List Bytes)
+    (patMatch : Level → Bytes → Bool) (o : Orders) (L : Levels) (prompt : Bytes) :
+    let r := Gen.Bodies.Priv.determineCurrentPriv (o.lv L) notContains patMatch prompt
+    let possible := determineCurrent (matchOf notContains patMatch) o L prompt
+    r.1 = possible ∧ (possible = [] → r.2 ≠ none) ∧ (possible ≠ [] → r.2 = none) := by
+  simp only [generated_determineCurrentPriv_eq]
+  by_cases h : determineCurrent (matchOf notContains patMatch) o L prompt = [] <;> simp [h]
+
 end Scrapli.Priv.C04
